@@ -40,6 +40,12 @@ def run(ctx):
     if fs is not None and fm is not None:
         agree_rule(ctx, fs, fm)
     window_rule(ctx, "C10.U")
+    # the runs listed are those of the minimiser iterator, rendered by numeric_to_kmer
+    from . import c09, c02
+    c09.run(dep(ctx, "C10", "C09"))
+    tab = (ctx.prog.consts.get(c02.TABLE) or {}).get("bytes")
+    if tab is not None:
+        c02.decode_rules(dep(ctx, "C10", "C02"), tab)
 
 
 def s2m_rules(ctx, fv):
